@@ -205,6 +205,22 @@ def m_checked_div(ex, m, args, tys, st, fn):
     return out
 
 
+@model(r"^(?:core|std)::num::<impl ([iu](?:8|16|32|64|128|size))>::(div_euclid|rem_euclid)$")
+def m_euclid(ex, m, args, tys, st, fn):
+    bits, signed = _int_of(m.group(1))
+    a, b = args
+    lo, _hi = tm.ty_range(bits, signed)
+    bad = tm.eq(b, I(0))
+    if signed:
+        bad = tm.or_(bad, tm.and_(tm.eq(a, I(lo)), tm.eq(b, I(-1))))
+    if not (bad.is_const and not bad.val):
+        ex.obligations.append({"kind": "panic", "msg": m.group(2) + " by zero or with overflow", "pc": list(st.pc) + [bad], "fn": fn.path})
+    if bad.is_const and bad.val:
+        return []
+    st.assume(tm.not_(bad))
+    return [(st, tm.ediv(a, b) if m.group(2) == "div_euclid" else tm.emod(a, b))]
+
+
 @model(r"^(?:core|std)::num::<impl ([iu](?:8|16|32|64|128|size))>::checked_neg$")
 def m_checked_neg(ex, m, args, tys, st, fn):
     bits, signed = _int_of(m.group(1))
